@@ -352,6 +352,15 @@ def check(ctx):
     layout.r_partition(ctx, 'R01.6')
     binding.r_base_pattern(ctx, 'R01.7')
     binding.r_tags(ctx, 'R01.8')
+    # constants: the value a literal denotes and its structural encoding (shared with C07 / C11)
+    from . import c07, c11
+    from .. import guards
+    c07.r_uint_tables(ctx)
+    c07.r_sum_leaves(ctx)
+    c07.r_value_to_structural(ctx, 'R01.9')
+    ctx.rule('R01.9', 'constants: literal converters and Value -> StructuralValue build the structural value of the written literal (decision tables + constructor tables)')
+    table = guards.load_table()
+    guards.compare(ctx, 'R01.9', sorted(p for p in table if c11.LIT.match(p)), table, 'literal converters')
 
 
 if __name__ == '__main__':
